@@ -363,3 +363,362 @@ Section StepFacts.
         destruct (path_inv _ _ _ Ph) as [->|Q]. { eapply newmax_not_row; eauto. }
         apply maxl_In in Hh. destruct Hh as [Hh _]. eapply (newmax_no_path r x h); eauto. Qed.
 End StepFacts.
+
+(* ================================================================== E. the model of _unmerge_to_revisions *)
+Lemma anc_nodes_spec G targets : exists l, anc_nodes G targets = Some l /\
+  forall z, In z l <-> exists t, In t targets /\ path (norm_down G) t z.
+Proof. apply reach_set_spec. intros x Hx. apply of_rev_out; auto. Qed.
+
+Lemma strict_ancs_spec G P : exists l, strict_ancs G P = Some l /\
+  forall z, In z l <-> exists t, In t P /\ path (norm_down G) t z /\ z <> t.
+Proof. induction P as [|t P [l [E S]]].
+  - exists []. split; auto. intros z. split; [intros []|intros [t [[] _]]].
+  - destruct (anc_nodes_spec G [t]) as [a [Ea Sa]]. exists (removeN t a ++ l). cbn [strict_ancs]. rewrite Ea, E. split; auto.
+    intros z. rewrite in_app_iff, removeN_In, Sa, S. split.
+    + intros [[[t' [[->|[]] Pt]] Hne]|[t' [Ht' Q]]]; [exists t'|exists t']; cbn [In]; auto.
+    + intros [t' [[->|Ht'] [Pt Hne]]]; [left|right; exists t'; auto]. split; auto. exists t'. cbn [In]; auto. Qed.
+
+Lemma unmerge_to_spec G r Hd : exists to0, unmerge_to_revisions G r Hd = Ok to0 /\
+  forall x, In x to0 <-> In x (norm_down G r) /\
+              ~ (exists t, In t (norm_down G r) /\ path (norm_down G) t x /\ x <> t) /\
+              ~ (exists h, (In h Hd /\ h <> r) /\ path (norm_down G) h x).
+Proof. unfold unmerge_to_revisions. destruct (strict_ancs_spec G (norm_down G r)) as [a1 [E1 S1]]. rewrite E1.
+  assert (exists a2, (if is_nil (removeN r Hd) then Some [] else anc_nodes G (removeN r Hd)) = Some a2 /\
+            forall z, In z a2 <-> exists h, (In h Hd /\ h <> r) /\ path (norm_down G) h z) as [a2 [E2 S2]].
+  { destruct (removeN r Hd) as [|o os] eqn:EO.
+    - exists []. split; auto. intros z. split; [intros []|]. intros [h [Hh _]]. apply removeN_In in Hh. rewrite EO in Hh. destruct Hh.
+    - cbn [is_nil]. rewrite <- EO. destruct (anc_nodes_spec G (removeN r Hd)) as [a2 [E2 S2]]. exists a2. split; auto.
+      intros z. rewrite S2. split; intros [h [Hh Ph]]; exists h; split; auto; apply removeN_In; auto. }
+  rewrite E2. eexists. split; [reflexivity|]. intros x. rewrite diffN_In, in_app_iff, S1, S2. tauto. Qed.
+
+(* ================================================================== F. one step of update_to_step *)
+Lemma is_nil_true {A} (l:list A) : is_nil l = true <-> l = [].
+Proof. destruct l; cbn; split; auto; discriminate. Qed.
+Lemma is_nil_false {A} (l:list A) : is_nil l = false <-> l <> [].
+Proof. destruct l; cbn; split; auto; try discriminate; congruence. Qed.
+
+Lemma removelast_last_NoDup (F:list N) : F <> [] -> NoDup F ->
+  NoDup (removelast F) /\ ~ In (last F 0%N) (removelast F) /\ forall x, In x F <-> In x (removelast F) \/ x = last F 0%N.
+Proof. intros Hne ND. pose proof (app_removelast_last 0%N Hne) as E.
+  assert (ND' : NoDup (removelast F ++ [last F 0%N])) by (rewrite <- E; auto).
+  split; [|split].
+  - apply NoDup_remove_1 in ND'. rewrite app_nil_r in ND'. auto.
+  - apply NoDup_remove_2 in ND'. rewrite app_nil_r in ND'. auto.
+  - intros x. rewrite E at 1. rewrite in_app_iff. cbn [In]. intuition. Qed.
+
+(* delete all of F but the last, update the last to t: F is replaced by t *)
+Lemma eff_replace F t s : sync s -> NoDup F -> F <> [] -> incl F (heads s) -> ~ In t (heads s) ->
+  eff (then_ (each delete_version (removelast F) s) (update_version (last F 0%N) t))
+      (fun x => x = t \/ (In x (heads s) /\ ~ In x F)).
+Proof. intros Sy ND Hne Hin Ht. destruct (removelast_last_NoDup F Hne ND) as [ND' [Hl HF]].
+  eapply eff_then.
+  - apply eff_each_delete; auto. intros x Hx. apply Hin. apply HF; auto.
+  - intros s1 Sy1 H1. eapply eff_ext; [apply eff_update; auto|].
+    + apply H1. split; auto. apply Hin. apply HF; auto.
+    + rewrite H1. tauto.
+    + intros x. cbv beta. rewrite H1, (HF x). intuition. Qed.
+
+(* insert all of T but the last, update f to the last: f is replaced by T *)
+Lemma eff_spread T f s : sync s -> NoDup T -> T <> [] -> (forall x, In x T -> ~ In x (heads s)) -> In f (heads s) ->
+  eff (then_ (each insert_version (removelast T) s) (update_version f (last T 0%N)))
+      (fun x => (In x (heads s) /\ x <> f) \/ In x T).
+Proof. intros Sy ND Hne Hout Hf. destruct (removelast_last_NoDup T Hne ND) as [ND' [Hl HT]].
+  eapply eff_then.
+  - apply eff_each_insert; auto. intros x Hx. apply Hout. apply HT; auto.
+  - intros s1 Sy1 H1. eapply eff_ext; [apply eff_update; auto|].
+    + apply H1. auto.
+    + rewrite H1. intros [Hh|Hr]; auto. apply (Hout (last T 0%N)); auto. apply HT; auto.
+    + intros x. cbv beta. rewrite H1, (HT x).
+      assert (In f T -> False) by (intros Hft; apply (Hout f); auto).
+      split.
+      * intros [->|[[Hh|Hr] Hxf]]; auto.
+      * intros [[Hh Hxf]|[Hr| ->]]; auto. right. split; auto. intros ->. apply H. apply HT; auto. Qed.
+
+Definition Inv (G:graph) (A:list N) (s:hm) : Prop :=
+  closed G A /\ sync s /\ forall x, In x (heads s) <-> In x (maxl G A).
+
+Section OneStep.
+  Variable G : graph.
+  Variable ord : list N -> list N.
+  Hypothesis W : gwf G.
+  Hypothesis ord_perm : forall l, Permutation (ord l) l.
+
+  Lemma filter_single (f:N->bool) d : filter f [d] <> [] -> filter f [d] = [d].
+  Proof. cbn. destruct (f d); congruence. Qed.
+
+  Lemma rev_step_up r A s : Inv G A s -> valid_step G A r true ->
+    eff (rev_step G ord r true s) (fun x => In x (maxl G (ghost r true A))).
+  Proof. intros [C [Sy HM]] [Hrid [Hs Hr]]. cbn [ghost].
+    unfold rev_step. set (P := norm_down G r). set (F := interN P (heads s)).
+    assert (NDP : NoDup P) by apply (g_nd G W).
+    assert (NDF : NoDup F) by (apply NoDup_filter; auto).
+    assert (HF : forall x, In x F <-> In x (heads s) /\ In x (all_down G r)).
+    { intros x. unfold F. rewrite interN_In, HM. rewrite <- (rows_norm_parents G W A C r Hs x), interN_In. tauto. }
+    assert (HFin : incl F (heads s)) by (intros x Hx; apply HF in Hx; tauto).
+    assert (Hrh : ~ In r (heads s)) by (rewrite HM, maxl_In; tauto).
+    assert (TGT : forall x, (x = r \/ (In x (heads s) /\ ~ In x F)) <-> In x (maxl G (r :: A))).
+    { intros x. rewrite (maxl_up G W A C r Hs Hr x), HF, <- HM. tauto. }
+    destruct (is_nil P || is_nil F) eqn:E1.
+    - (* should_create_branch *)
+      assert (EF : F = []).
+      { apply orb_true_iff in E1. destruct E1 as [E|E]; apply is_nil_true in E; auto. unfold F. rewrite E. reflexivity. }
+      eapply eff_ext; [apply eff_insert; auto|]. intros x. cbv beta. rewrite <- TGT, EF. cbn [In]. tauto.
+    - apply orb_false_iff in E1. destruct E1 as [EP EF]. apply is_nil_false in EP, EF.
+      destruct (Nat.ltb 1 (length P) && Nat.ltb 1 (length F)) eqn:E2.
+      + (* should_merge_branches *)
+        eapply eff_ext; [apply eff_replace; auto|]. exact TGT.
+      + (* update_version_num *)
+        assert (exists d, F = [d] /\ rev_update_version_num G r true (heads s) = Ok (d, r)) as [d [EFd EU]].
+        { unfold rev_update_version_num. fold P. fold F.
+          destruct (Nat.eqb (length P) 1) eqn:E3.
+          - apply Nat.eqb_eq in E3. destruct P as [|d [|? ?]] eqn:EPP; try discriminate. exists d. cbn [hd bind]. split; auto.
+            unfold F. apply filter_single. exact EF.
+          - apply Nat.eqb_neq in E3. apply andb_false_iff in E2. rewrite !Nat.ltb_ge in E2.
+            destruct F as [|d [|? ?]] eqn:EFF; try congruence.
+            + exists d. auto.
+            + exfalso. destruct P as [|? [|? ?]]; cbn [length] in *; try congruence; destruct E2; lia. }
+        rewrite EU. cbn [bind fst snd]. eapply eff_ext; [apply eff_update; auto|].
+        * apply HFin. rewrite EFd. left; auto.
+        * intros x. cbv beta. rewrite <- TGT, EFd. cbn [In]. intuition. Qed.
+
+  Lemma rev_step_down r A s : Inv G A s -> valid_step G A r false ->
+    eff (rev_step G ord r false s) (fun x => In x (maxl G (ghost r false A))).
+  Proof. intros [C [Sy HM]] [Hr Hn]. cbn [ghost].
+    unfold rev_step. set (P := norm_down G r).
+    assert (Hrh : In r (heads s)) by (rewrite HM, maxl_In; auto).
+    assert (E0 : memN r (heads s) = true) by (apply memN_In; auto). rewrite E0.
+    assert (TGT : forall x, In x (maxl G (removeN r A)) <-> (In x (heads s) /\ x <> r) \/ newmax G A r x).
+    { intros x. rewrite (maxl_down G W A C r Hr Hn x), HM. tauto. }
+    destruct (unmerge_to_spec G r (heads s)) as [to0 [ET ST]].
+    assert (ST' : forall x, In x to0 <-> newmax G A r x).
+    { intros x. rewrite ST. rewrite <- (unmerge_set G W A C r Hr Hn x). fold P.
+      split; intros [H1 [H2 H3]]; split; auto; split; auto; intros [h [[Hh Hne] Ph]]; apply H3; exists h;
+        (split; [split; auto; apply HM; auto|auto]). }
+    assert (NDT : NoDup to0).
+    { revert ET. unfold unmerge_to_revisions. destruct (strict_ancs G (norm_down G r)); [|discriminate].
+      destruct (if is_nil (removeN r (heads s)) then Some [] else anc_nodes G (removeN r (heads s))); [|discriminate].
+      inversion 1. apply NoDup_filter. apply (g_nd G W). }
+    assert (DEL : (forall x, ~ newmax G A r x) ->
+                  eff (delete_version r s) (fun x => In x (maxl G (removeN r A)))).
+    { intros Hno. eapply eff_ext; [apply eff_delete; auto|]. intros x. cbv beta. rewrite TGT. specialize (Hno x). tauto. }
+    destruct (is_nil P) eqn:EP.
+    - (* a base *)
+      apply is_nil_true in EP. apply DEL. intros x [Hx _].
+      destruct (g_n2 G W r x Hx) as [p [Hp _]].
+      { change (norm_down G r) with P. rewrite EP. auto. }
+      change (norm_down G r) with P in Hp. rewrite EP in Hp. destruct Hp.
+    - rewrite ET. destruct (is_nil to0) eqn:ET0.
+      + apply is_nil_true in ET0. apply DEL. intros x Hx. apply ST' in Hx. rewrite ET0 in Hx. destruct Hx.
+      + apply is_nil_false in EP, ET0.
+        assert (Hout : forall x, In x to0 -> ~ In x (heads s)).
+        { intros x Hx. apply ST' in Hx. rewrite HM. eapply newmax_not_row; eauto. }
+        destruct (Nat.ltb 1 (length P)) eqn:E2.
+        * (* should_unmerge_branches *)
+          pose proof (ord_perm to0) as PE.
+          eapply eff_ext; [apply eff_spread; auto|].
+          -- eapply Permutation_NoDup; [apply Permutation_sym; exact PE|auto].
+          -- intros E. rewrite E in PE. apply Permutation_nil in PE. auto.
+          -- intros x Hx. apply Hout. eapply Permutation_in; eauto.
+          -- intros x. cbv beta. rewrite TGT, <- ST'. split; (intros [?|Hx]; [left; auto|right]).
+             ++ eapply Permutation_in; eauto.
+             ++ eapply Permutation_in; [apply Permutation_sym|]; eauto.
+        * (* update_version_num *)
+          apply Nat.ltb_ge in E2. destruct P as [|p [|? ?]] eqn:EPP; cbn [length] in E2; try congruence; try lia.
+          unfold rev_update_version_num. fold P. rewrite EPP. cbn [length Nat.eqb hd bind fst snd].
+          assert (Hto : forall x, In x to0 <-> x = p).
+          { intros x. split.
+            - intros Hx. apply ST in Hx. destruct Hx as [Hx _]. fold P in Hx. rewrite EPP in Hx. destruct Hx as [?|[]]; auto.
+            - intros ->. destruct to0 as [|y tl]; [congruence|]. assert (Hy : In y (y :: tl)) by (left; auto).
+              pose proof Hy as Hy'. apply ST in Hy'. destruct Hy' as [Hy' _]. fold P in Hy'. rewrite EPP in Hy'.
+              destruct Hy' as [<-|[]]. auto. }
+          eapply eff_ext; [apply eff_update; auto|].
+          -- apply Hout. apply Hto. auto.
+          -- intros x. cbv beta. rewrite TGT, <- ST', Hto. tauto. Qed.
+End OneStep.
+
+(* ================================================================== G. steps, commands, traces *)
+Lemma Inv_rows_ok G A s : gwf G -> Inv G A s -> rows_ok G A (rows s).
+Proof. intros W [C [[N1 [N2 EQ]] HM]]. pose proof (gwf_noself G W) as NS.
+  assert (EQ' : forall x, In x (rows s) <-> In x (maxl G A)) by (intros x; rewrite <- EQ; apply HM).
+  split; auto. split; [|split].
+  - intros x. rewrite (is_head_maxl G A x C NS). auto.
+  - intros x y Hx Hy. apply (maxl_antichain G A); auto; apply EQ'; auto.
+  - intros z. split.
+    + intros Hz. destruct (below_max G A W z Hz) as [h [Hh P]]. exists h. split; auto. apply EQ'; auto.
+    + intros [h [Hh P]]. apply EQ' in Hh. apply maxl_In in Hh. destruct Hh as [Hh _]. eapply closed_path; eauto. Qed.
+
+Fixpoint valid_steps (G:graph) (A:list N) (steps:list step) : Prop :=
+  match steps with
+  | [] => True
+  | RevStep r up :: t => valid_step G A r up /\ valid_steps G (ghost r up A) t
+  | _ => False
+  end.
+
+Section Trace.
+  Variable G : graph.
+  Variable ord : list N -> list N.
+  Hypothesis W : gwf G.
+  Hypothesis ord_perm : forall l, Permutation (ord l) l.
+
+  Theorem step_thm r up A s : Inv G A s -> valid_step G A r up ->
+    exists s' st, update_to_step G ord (RevStep r up) s = Ok (s', st) /\
+                  Inv G (ghost r up A) s' /\ Forall one_row st /\ rows_ok G (ghost r up A) (rows s').
+  Proof. intros I V.
+    assert (E : eff (rev_step G ord r up s) (fun x => In x (maxl G (ghost r up A)))).
+    { destruct up; [apply rev_step_up|apply rev_step_down]; auto. }
+    destruct E as [s' [st [E [Sy [F HM]]]]]. exists s', st. cbn [update_to_step].
+    assert (I' : Inv G (ghost r up A) s').
+    { destruct I as [C _]. split; [eapply ghost_closed; eauto|]. split; auto. }
+    split; auto. split; auto. split; auto. apply Inv_rows_ok; auto. Qed.
+
+  Theorem run_steps_thm : forall steps A s, Inv G A s -> valid_steps G A steps ->
+    exists os s', run_steps G ord steps s = (os, Some s') /\ steps_hold G A steps os /\
+                  Inv G (ghost_steps steps A) s' /\ last_rows os (rows s) = rows s'.
+  Proof. induction steps as [|st steps IH]; intros A s I V.
+    - exists [], s. cbn. auto.
+    - destruct st as [r up|]; [|destruct V]. destruct V as [V1 V2].
+      destruct (step_thm r up A s I V1) as [s1 [stm [E [I1 [F R]]]]].
+      destruct (IH _ _ I1 V2) as [os [s' [E' [SH [I' L]]]]].
+      exists (ObsOk (rows s1) stm :: os), s'. cbn [run_steps]. rewrite E, E'. cbn [steps_hold ghost_steps last_rows].
+      split; auto. Qed.
+
+  Definition InvR (A rws:list N) : Prop := closed G A /\ NoDup rws /\ forall x, In x rws <-> In x (maxl G A).
+  Lemma start_Inv A rws : InvR A rws -> Inv G A (start rws).
+  Proof. intros [C [ND EQ]]. split; auto. unfold start, sync. cbn [heads rows]. split.
+    - split; [apply dedupe_NoDup|]. split; auto. intros x. apply dedupe_In.
+    - intros x. rewrite dedupe_In. auto. Qed.
+  Lemma Inv_InvR A s : Inv G A s -> InvR A (rows s).
+  Proof. intros [C [[N1 [N2 EQ]] HM]]. split; auto. split; auto. intros x. rewrite <- EQ. auto. Qed.
+
+  (* what `upgrade heads` / `downgrade base` is assumed to have applied (C01 / C02 are about that) *)
+  Definition end_pre (e:endk) (A:list N) : Prop :=
+    match e with EndNone => True | EndHeads => forall x, In x A <-> In x (ids G) | EndBase => A = [] end.
+  Fixpoint valid_cmds (A:list N) (cmds:list cmd) : Prop :=
+    match cmds with
+    | [] => True
+    | (e, steps) :: t => valid_steps G A steps /\ end_pre e (ghost_steps steps A) /\ valid_cmds (ghost_steps steps A) t
+    end.
+
+  Theorem endpoints e A rws : InvR A rws -> end_pre e A -> end_ok G e rws.
+  Proof. intros [C [ND EQ]] EP. destruct e; cbn in *; auto.
+    - intros x. rewrite EQ, maxl_In, EP. unfold no_child_in_G. split; intros [H1 H2]; split; auto; intros y Hy; apply H2; apply EP; auto.
+    - subst A. destruct rws as [|x l]; auto. exfalso. assert (Hx : In x (x :: l)) by (left; auto). apply EQ in Hx. destruct Hx. Qed.
+
+  Theorem run_cmd_thm e steps A rws : InvR A rws -> valid_steps G A steps -> end_pre e (ghost_steps steps A) ->
+    exists os rws', run_cmd G ord steps rws = (os, Some rws') /\ steps_hold G A steps os /\
+                    rws' = last_rows os rws /\ InvR (ghost_steps steps A) rws' /\ end_ok G e rws'.
+  Proof. intros I V EP. destruct (run_steps_thm steps A (start rws) (start_Inv _ _ I) V) as [os [s' [E [SH [I' L]]]]].
+    exists os, (rows s'). unfold run_cmd. rewrite E. cbn [option_map]. cbn [start rows] in L.
+    pose proof (Inv_InvR _ _ I') as IR. repeat split; auto; try apply IR. eapply endpoints; eauto. Qed.
+
+  Theorem run_cmds_thm : forall cmds A rws, InvR A rws -> valid_cmds A cmds ->
+    cmds_hold G A rws cmds (run_cmds G ord (map snd cmds) rws).
+  Proof. induction cmds as [|[e steps] cmds IH]; intros A rws I V; [cbn; auto|].
+    destruct V as [V1 [V2 V3]]. destruct (run_cmd_thm e steps A rws I V1 V2) as [os [rws' [E [SH [L [I' EO]]]]]].
+    cbn [map snd run_cmds]. rewrite E. cbn [cmds_hold]. rewrite <- L. split; auto. Qed.
+
+  Theorem each_cmd_thm : forall cmds A rws, InvR A rws -> (forall c, In c cmds -> valid_cmds A [c]) ->
+    each_hold G A rws cmds (map (fun c => fst (run_cmd G ord (snd c) rws)) cmds).
+  Proof. induction cmds as [|[e steps] cmds IH]; intros A rws I V; [cbn; auto|].
+    cbn [map each_hold]. split; [|apply IH; auto; intros c Hc; apply V; right; auto].
+    destruct (V (e, steps)) as [V1 [V2 _]]; [left; auto|].
+    destruct (run_cmd_thm e steps A rws I V1 V2) as [os [rws' [E [SH [L [I' EO]]]]]].
+    cbn [snd]. rewrite E. cbn [fst cmds_hold]. rewrite <- L. auto. Qed.
+End Trace.
+
+(* ================================================================== H. from the loaded history to gwf *)
+Lemma down_all G x y : In y (down G x) -> In y (all_down G x).
+Proof. unfold down, all_down, of_rev. destruct (find_rev G x); auto. unfold all_down_r. rewrite dedupe_In, in_app_iff. auto. Qed.
+Lemma deps_all G x y : In y (deps G x) -> In y (all_down G x).
+Proof. unfold deps, all_down, of_rev. destruct (find_rev G x); auto. unfold all_down_r. rewrite dedupe_In, in_app_iff. auto. Qed.
+
+Theorem gwf_of G : wf_refs G -> ~ cyclic (all_down G) -> ndeps_okb G = true -> gwf G.
+Proof. intros [ND WR] AC NK. unfold ndeps_okb in NK. rewrite forallb_forall in NK.
+  assert (CASE : forall x, (all_down G x = [] /\ norm_down G x = []) \/
+                           exists r, In r G /\ r_id r = x /\ all_down G x = all_down_r r /\ norm_down G x = norm_down_r r).
+  { intros x. unfold all_down, norm_down, of_rev. destruct (find_rev G x) as [r|] eqn:E; auto.
+    apply find_rev_Some in E. destruct E. right. exists r. auto. }
+  constructor; auto.
+  - intros x y Hy. destruct (CASE x) as [[E _]|[r [Hr [_ [E _]]]]]; rewrite E in Hy; [destruct Hy|].
+    unfold all_down_r in Hy. rewrite dedupe_In, in_app_iff in Hy. destruct (WR r Hr) as [H1 H2]. destruct Hy; auto.
+  - intros x p Hp. destruct (CASE x) as [[_ E]|[r [Hr [_ [E1 E2]]]]]; rewrite E in Hp || rewrite E2 in Hp; [destruct Hp|].
+    rewrite E1. unfold norm_down_r in Hp. unfold all_down_r. rewrite dedupe_In, in_app_iff in *. destruct Hp as [|Hp]; auto. right.
+    specialize (NK r Hr). destruct (normalize G r) as [l|] eqn:EN; [|discriminate]. rewrite andb_true_iff, seteqN_spec in NK.
+    destruct NK as [NK _]. apply NK in Hp. unfold normalize in EN. destruct (is_nil (r_deps r)).
+    + inversion EN; subst. destruct Hp.
+    + destruct (reach_set (down G) G [r_id r]); [|discriminate]. inversion EN; subst. apply diffN_In in Hp. tauto.
+  - intros x d Hd Hnd. destruct (CASE x) as [[E _]|[r [Hr [Ex [E1 E2]]]]]; [rewrite E in Hd; destruct Hd|].
+    rewrite E1 in Hd. rewrite E2 in Hnd. rewrite E2. unfold all_down_r in Hd. unfold norm_down_r in *.
+    rewrite dedupe_In, in_app_iff in Hd. rewrite dedupe_In, in_app_iff in Hnd.
+    destruct Hd as [Hd|Hd]; [tauto|].
+    specialize (NK r Hr). destruct (normalize G r) as [l|] eqn:EN; [|discriminate]. rewrite andb_true_iff, seteqN_spec in NK.
+    destruct NK as [NK _]. unfold normalize in EN. destruct (is_nil (r_deps r)) eqn:EI.
+    { apply is_nil_true in EI. rewrite EI in Hd. destruct Hd. }
+    destruct (reach_set_spec (down G) G [r_id r]) as [ancs [EA SA]]. { intros y Hy. apply of_rev_out; auto. }
+    rewrite EA in EN. inversion EN; subst l. clear EN.
+    assert (Hin : In d (flat_map (fun a => if N.eqb a (r_id r) then [] else deps G a) ancs)).
+    { destruct (in_dec N.eq_dec d (flat_map (fun a => if N.eqb a (r_id r) then [] else deps G a) ancs)); auto.
+      exfalso. apply Hnd. right. apply NK. apply diffN_In. auto. }
+    apply in_flat_map in Hin. destruct Hin as [a [Ha Hda]]. destruct (N.eqb_spec a (r_id r)) as [|Hne]; [destruct Hda|].
+    apply SA in Ha. destruct Ha as [t [[<-|[]] Pa]].
+    destruct (path_inv _ _ _ Pa) as [?|[p [Hp Pp]]]; [congruence|].
+    exists p. split.
+    + rewrite dedupe_In, in_app_iff. left. unfold down, of_rev in Hp. rewrite find_rev_In in Hp; auto.
+    + eapply path1_snoc; [|apply deps_all; eauto]. eapply path_incl; [|exact Pp]. apply down_all.
+  - intros x. destruct (CASE x) as [[_ E]|[r [_ [_ [_ E]]]]]; rewrite E; [constructor|apply dedupe_NoDup]. Qed.
+
+(* ================================================================== I. the statements of Properties/C03.v *)
+Lemma closure_nil G : closure G [] = Some [].
+Proof. reflexivity. Qed.
+
+Lemma pre_InvR G rws0 reset cmds A0 : pre_C03 (G, rws0, reset, cmds) = true -> closure G rws0 = Some A0 -> InvR G A0 rws0.
+Proof. unfold pre_C03. rewrite !andb_true_iff. intros [[[[_ _] ND] _] PB] E. rewrite E in PB.
+  split; [eapply closure_closed; eauto|]. split; [apply nodupb_NoDup; auto|]. apply permb_In; auto. Qed.
+
+Theorem main_trace G ord rws0 cmds A0 :
+  wf_refs G -> ~ cyclic (all_down G) -> ndeps_okb G = true -> (forall l, Permutation (ord l) l) ->
+  closure G rws0 = Some A0 -> valid_cmds G A0 cmds ->
+  C03_holds (G, rws0, false, cmds) (run_cmds G ord (map snd cmds) rws0).
+Proof. intros WF AC NK OP E V PRE. exists A0. split; auto.
+  apply run_cmds_thm; auto; [apply gwf_of; auto|eapply pre_InvR; eauto]. Qed.
+
+Theorem main_each G ord rws0 cmds A0 :
+  wf_refs G -> ~ cyclic (all_down G) -> ndeps_okb G = true -> (forall l, Permutation (ord l) l) ->
+  closure G rws0 = Some A0 -> (forall c, In c cmds -> valid_cmds G A0 [c]) ->
+  C03_holds (G, rws0, true, cmds) (map (fun c => fst (run_cmd G ord (snd c) rws0)) cmds).
+Proof. intros WF AC NK OP E V PRE. exists A0. split; auto.
+  apply each_cmd_thm; auto; [apply gwf_of; auto|eapply pre_InvR; eauto]. Qed.
+
+(* ================================================================== J. boolean forms of the hypotheses (for the non-vacuity examples) *)
+Lemma ranked_acyclic (succ : N -> list N) (rk : N -> nat) :
+  (forall x y, In y (succ x) -> rk y < rk x) -> ~ cyclic succ.
+Proof. intros H. assert (P : forall x y, path succ x y -> rk y <= rk x).
+  { induction 1; [lia|]. specialize (H _ _ H0). lia. }
+  intros [x [y [Hy Q]]]. specialize (H _ _ Hy). specialize (P _ _ Q). lia. Qed.
+Definition rankedb (G:graph) (rk : N -> nat) : bool :=
+  forallb (fun r => forallb (fun p => Nat.ltb (rk p) (rk (r_id r))) (all_down_r r)) G.
+Lemma rankedb_acyclic G rk : rankedb G rk = true -> ~ cyclic (all_down G).
+Proof. unfold rankedb. rewrite forallb_forall. intros H. apply (ranked_acyclic _ rk). intros x y Hy.
+  unfold all_down, of_rev in Hy. destruct (find_rev G x) as [r|] eqn:E; [|destruct Hy]. apply find_rev_Some in E.
+  destruct E as [Hr <-]. specialize (H r Hr). rewrite forallb_forall in H. apply Nat.ltb_lt. auto. Qed.
+
+Fixpoint valid_stepsb (G:graph) (A:list N) (steps:list step) : bool :=
+  match steps with
+  | [] => true
+  | RevStep r up :: t => valid_stepb G A r up && valid_stepsb G (ghost r up A) t
+  | _ => false
+  end.
+Definition end_preb (G:graph) (e:endk) (A:list N) : bool :=
+  match e with EndNone => true | EndHeads => seteqN A (ids G) | EndBase => is_nil A end.
+Fixpoint valid_cmdsb (G:graph) (A:list N) (cmds:list cmd) : bool :=
+  match cmds with
+  | [] => true
+  | (e, steps) :: t => valid_stepsb G A steps && end_preb G e (ghost_steps steps A) && valid_cmdsb G (ghost_steps steps A) t
+  end.
+Lemma valid_stepsb_spec G : forall steps A, valid_stepsb G A steps = true -> valid_steps G A steps.
+Proof. induction steps as [|[r up|] steps IH]; intros A H; cbn in *; auto; [|discriminate].
+  apply andb_true_iff in H. destruct H. split; [apply valid_stepb_spec|]; auto. Qed.
+Lemma valid_cmdsb_spec G : forall cmds A, valid_cmdsb G A cmds = true -> valid_cmds G A cmds.
+Proof. induction cmds as [|[e steps] cmds IH]; intros A H; cbn [valid_cmds valid_cmdsb] in *; auto.
+  rewrite !andb_true_iff in H. destruct H as [[H1 H2] H3]. split; [apply valid_stepsb_spec; auto|]. split; auto.
+  destruct e; cbn in *; auto. { apply seteqN_spec; auto. } apply is_nil_true; auto. Qed.
